@@ -5,7 +5,8 @@ description), meta.json (property, what it needs in order to manifest, what was 
 the registered check of that property reported against it)."""
 import json, os, re, shutil, sys
 VERIF = os.path.dirname(os.path.dirname(os.path.abspath(__file__)))
-INC = os.path.join(VERIF, 'seeded', '_incoming')
+INC = os.path.join(VERIF, 'seeded', os.environ.get('SEEDED_INC', '_incoming'))
+ROUND = 'r2' if INC.endswith('2') else ''
 NEED = re.compile(r'(?i)(what it needs|^\s*needs:|needed to manifest)')
 STOP = re.compile(r'^(#|\*\*[A-Z]|Commands|Verification|Demonstration|Demo\b|---|```)')
 
@@ -58,7 +59,7 @@ def main():
             if not c.get('confirmed'):
                 print('skip (not confirmed):', P, i)
                 continue
-            name = '%s-m%d' % (P, i)
+            name = '%s-%sm%d' % (P, ROUND, i)
             out = os.path.join(VERIF, 'seeded', name)
             os.makedirs(out, exist_ok=True)
             shutil.copy(diff, os.path.join(out, 'patch.diff'))
